@@ -435,14 +435,42 @@ impl Space for BigTables {
         format!("{} with 300 names (duplicates, empty, >= 0x80 bytes): nbucket in {{1,7,64,300}} x bloom words {{1,16,64}} x symoffset {{1,17}} x 4 encodings; 300 present + 40 absent lookups each", if self.gnu { ".gnu.hash" } else { ".hash" })
     }
     fn size(&self) -> u64 {
-        4 * 4 * 3 * 2
+        4 * 4 * 3 * 2 + 4
     }
     fn describe(&self, idx: u64) -> Value {
+        if idx >= 96 {
+            return json!({"encoding": ENCS[(idx - 96) as usize].name(), "symbols": 70000, "nbucket": 1021});
+        }
         let d = unmix(idx, &[4, 4, 3, 2]);
         let (nb, bw, so) = ([1, 7, 64, 300][d[1] as usize], [1, 16, 64][d[2] as usize], [1, 17][d[3] as usize]);
         json!({"encoding": ENCS[d[0] as usize].name(), "nbucket": nb, "bloom_words": bw, "symoffset": so})
     }
     fn run(&self, idx: u64, out: &mut Outcome) {
+        if idx >= 96 {
+            // 70 000 symbols: indexes beyond 2^16
+            let enc = ENCS[(idx - 96) as usize];
+            let u: Vec<Vec<u8>> = (0..70_000u32).map(|i| format!("s{:x}", i.wrapping_mul(2654435761)).into_bytes()).collect();
+            let b = build_table(self.gnu, enc, &u, u64::MAX, 1, 1021, 64, 6);
+            let who = if self.gnu { "GnuHashTable::find" } else { "SysVHashTable::find" };
+            let mut dig = Fnv::new();
+            for i in [1usize, 255, 256, 257, 65_535, 65_536, 65_537, 69_999, 70_000] {
+                let q = match b.names.get(i) {
+                    Some(q) => q.clone(),
+                    None => continue,
+                };
+                out.transitions += 1;
+                let want = b.names.iter().enumerate().skip(b.first_hashed).find(|(_, n)| **n == q).map(|(k, _)| k);
+                match crate_find(self.gnu, enc, &b.sect, &b.symtab, &b.strtab, &q) {
+                    Ok(Some(Ok(got))) if got.map(|x| x.0) == want && got.map(|x| x.1).unwrap_or(true) => dig.u64(i as u64),
+                    other => {
+                        out.violate(format!("big-table:{who}"), format!("70000-symbol {} table: lookup of symbol {} gives {:?}, ground truth {:?}", enc.name(), i, other.map(|o| o.map(|r| r.map(|g| g.map(|x| x.0)))), want));
+                        return;
+                    }
+                }
+            }
+            out.nontrivial(dig.get() ^ idx);
+            return;
+        }
         let d = unmix(idx, &[4, 4, 3, 2]);
         let enc = ENCS[d[0] as usize];
         let nbucket = [1usize, 7, 64, 300][d[1] as usize];
